@@ -441,7 +441,9 @@ impl Scenario for LawScenario {
         let eps_milli = r.pick(&[10u64, 50, 100, 500, 1000, 2000, 5000, 10000, 20000]);
         let delta_exp = r.range(2, 12);
         let sens = r.pick(&[1usize, 1, 2, 3, 8, 10, 50, 200, 1000]);
-        json!({"eps_milli": eps_milli, "delta_exp": delta_exp, "sens": sens, "draws": 20000, "sample_seed": r.next_u64() >> 12})
+        // constructions made earlier in the same process with the same (epsilon, sensitivity) but another delta must not matter
+        let history: Vec<usize> = (0..r.below(3)).map(|_| r.range(1, 13)).collect();
+        json!({"eps_milli": eps_milli, "delta_exp": delta_exp, "sens": sens, "draws": 20000, "sample_seed": r.next_u64() >> 12, "history": history})
     }
     fn exec(&self, p: &Value, _explicit: Option<Vec<u32>>) -> RunRes {
         let eps = pu64(p, "eps_milli") as f64 / 1000.0;
@@ -464,6 +466,11 @@ impl Scenario for LawScenario {
         }
         if OPRFPaddingDp::new(0.0, delta, sens).is_ok() || OPRFPaddingDp::new(eps, 0.0, sens).is_ok() || OPRFPaddingDp::new(eps, 1.0, sens).is_ok() {
             return RunRes::violation("padding_dp_accepts_invalid", "OPRFPaddingDp::new accepted epsilon = 0, delta = 0 or delta = 1".into(), shape, None);
+        }
+        if p.get("history").is_some() {
+            for e in pvec(p, "history") {
+                let _ = OPRFPaddingDp::new(eps, 10f64.powi(-(e.clamp(1, 15) as i32)), sens);
+            }
         }
         let dp = match OPRFPaddingDp::new(eps, delta, sens) {
             Ok(d) => d,
